@@ -150,6 +150,10 @@ def compare(res, opname, want, got):
     if got["alignment"] != want["alignment"]:
         a, b = set(want["alignment"]), set(got["alignment"])
         res.violation("A1-alignment", opname, "alignment differs: only written %s, only loaded %s" % (sorted(a - b, key=repr)[:4], sorted(b - a, key=repr)[:4]), site="entries" if len(a - b) + len(b - a) else "multiplicity")
+    if got.get("pdups") and not want.get("pdups"):
+        res.violation("A5-no-duplicates", opname, "performed notes %s occur more than once after loading" % got["pdups"][:5], site="performed")
+    if got.get("sdups") and not want.get("sdups"):
+        res.violation("A5-no-duplicates", opname, "score notes %s occur more than once after loading (a note line was duplicated)" % got["sdups"][:5], site="score")
     ppq, mpq = want["ppq"], want["mpq"]
     if (got["ppq"], got["mpq"]) != (ppq, mpq):
         res.violation("A2-performance", opname, "clock units/rate loaded (%s, %s), written (%s, %s)" % (got["ppq"], got["mpq"], ppq, mpq), site="clock")
@@ -207,6 +211,8 @@ def describe(perf_or_pp, alignment, part, ppq=None, mpq=None):
 
     pp = perf_or_pp.performedparts[0] if hasattr(perf_or_pp, "performedparts") else perf_or_pp
     d = {"alignment": canon_alignment(alignment), "ppq": ppq if ppq is not None else pp.ppq, "mpq": mpq if mpq is not None else pp.mpq}
+    ids = [str(n["id"]) for n in pp.notes]
+    d["pdups"] = sorted(set(i for i in ids if ids.count(i) > 1))
     d["pnotes"] = {str(n["id"]): {"pitch": int(n["midi_pitch"]), "velocity": int(n["velocity"]), "on": float(n["note_on"]), "off": float(n["note_off"]), "on_tick": n.get("note_on_tick"), "off_tick": n.get("note_off_tick")} for n in pp.notes}
     d["sustain"] = [(float(c["time"]), int(c["value"])) for c in pp.controls if c.get("number") == 64]
     d["soft"] = [(float(c["time"]), int(c["value"])) for c in pp.controls if c.get("number") == 67]
@@ -214,6 +220,8 @@ def describe(perf_or_pp, alignment, part, ppq=None, mpq=None):
     if part is not None:
         bm = part.beat_map
         sn = {}
+        sids = [str(n.id) for n in part.iter_all(S.Note, include_subclasses=True) if n.tie_prev is None]
+        d["sdups"] = sorted(set(i for i in sids if sids.count(i) > 1))
         for n in part.iter_all(S.Note, include_subclasses=True):
             if n.tie_prev is not None:
                 continue
